@@ -599,7 +599,7 @@ class XsdExplicitTimezoneFacet(XsdFacet):
             if value.tzinfo is not None:
                 reason = _("time zone prohibited for value {!r}").format(self.value)
                 raise XMLSchemaValidationError(self, value, reason)
-        except TypeError as err:
+        except (TypeError, AttributeError) as err:
             self.invalid_type_error(err, value)
 
 
